@@ -57,7 +57,14 @@ def summary_lemmas(run, rowsem, patterns, widths, prefix="lemma/range"):
         xe.encode_layout(q, rowsem, L)
         x = q.var(xe.wname(L.inputs["x"]))
         q.add(f"(>= {x} {1 << k})")
-        run.query(f"{prefix}/w{k}", q, "unsat", "lemma/range-summary", get_model=False)
+        xi = L.inputs["x"]
+
+        def violated(model, k=k, xi=xi):
+            xv = mval(model, xi)
+            return xv >= (1 << k), {"x": hex(xv), "width": k}
+        # a failing summary lemma IS a range-check soundness violation: replayed end to end
+        run.query(f"{prefix}/w{k}", q, "unsat", "lemma/range-summary",
+                  replay=gadget_replay(run, ["range_bits", k], L, violated))
 
 
 def gadget_replay(run, gadget_args, layout, violated, complete=None):
@@ -83,11 +90,47 @@ def gadget_replay(run, gadget_args, layout, violated, complete=None):
         return bool(o.get("verified")) and bad, {"gadget": gadget_args, "prover": o, "violated": info,
                                                  "env": env}
 
-    def rp(model):
+    def rp(model, complete=complete):
         ok, det = attempt(model)
         if ok or complete is None:
             return ok, det
+        if complete[0] == "logic":
+            # bind-query models do not constrain the logic chain: take the chain from the REAL
+            # witness generator run on the model's accumulator values, keep the model elsewhere,
+            # then fill range-block internals as in "blocks"
+            _, rowsem, patterns, chain_rows, acc_a, acc_b, gadget = complete
+            va = model.get(smt.vname(xe.wname(acc_a)), 0) % smt.R
+            vb = model.get(smt.vname(xe.wname(acc_b)), 0) % smt.R
+            lh, _ = extract(run, gadget, env={"a": "%064x" % va, "b": "%064x" % vb})
+            full = dict(model)
+            for r_ in chain_rows:
+                for wi in layout.gates[r_][1]:
+                    if wi not in (0, 1):
+                        full[smt.vname(xe.wname(wi))] = lh.witnesses[wi]
+            complete = ("blocks", rowsem, patterns)
+            model = full
+        if complete[0] == "blocks":
+            # the partial model covers every row outside the summarised range blocks; the
+            # internals of each block are filled in with the REAL witness generator run on
+            # the block's (model) value
+            _, rowsem, patterns = complete
+            full = dict(model)
+            for (s_, e_, k, w) in patterns.find_blocks(layout):
+                v = model.get(smt.vname(xe.wname(w)))
+                if v is None or e_ - s_ < 3 or k > 254:
+                    continue
+                mp, _m = patterns.match_at(layout, s_, k)
+                lh, _ = extract(run, ["range_bits", k], env={"x": "%064x" % (v % smt.R)})
+                for pa, big in mp.items():
+                    key = smt.vname(xe.wname(big))
+                    if key not in full:
+                        full[key] = lh.witnesses[pa]
+            ok2, det2 = attempt(full)
+            det2["completed_from_partial_model"] = "internals from the real witness generator"
+            return ok2, det2
         rowsem, pins = complete
+        if pins == "all-in-model":
+            pins = [i for i in range(len(layout.witnesses)) if smt.vname(xe.wname(i)) in model]
         q = xe.Query()
         xe.encode_layout(q, rowsem, layout)
         for i in pins:
